@@ -98,9 +98,13 @@ func (r *Report) Unresolved(rule, what, why string) *Obligation {
 	return r.add(rule, "-", what, "-", "unresolved", "anchor resolution: "+what, why, true)
 }
 
-func (r *Report) Note(format string, a ...any)   { r.Notes = append(r.Notes, fmt.Sprintf(format, a...)) }
-func (r *Report) Assume(format string, a ...any) { r.Assumptions = append(r.Assumptions, fmt.Sprintf(format, a...)) }
-func (r *Report) Trust(format string, a ...any)  { r.Trusted = append(r.Trusted, fmt.Sprintf(format, a...)) }
+func (r *Report) Note(format string, a ...any) { r.Notes = append(r.Notes, fmt.Sprintf(format, a...)) }
+func (r *Report) Assume(format string, a ...any) {
+	r.Assumptions = append(r.Assumptions, fmt.Sprintf(format, a...))
+}
+func (r *Report) Trust(format string, a ...any) {
+	r.Trusted = append(r.Trusted, fmt.Sprintf(format, a...))
+}
 
 // ---- known findings -------------------------------------------------------
 
@@ -298,6 +302,15 @@ func (r *Report) writeEvidence(opt Options, discharged, nontrivial, nKnown, viol
 		cov["self_test"] = r.SelfTest
 		cov["programs"] = r.SelfTest.Seeds + r.SelfTest.Benign
 		cov["disagreements_checked"] = r.SelfTest.Seeds + r.SelfTest.Benign
+	}
+	if r.Assumptions == nil {
+		r.Assumptions = []string{}
+	}
+	if r.Trusted == nil {
+		cov["trusted_base"] = []string{}
+	}
+	if r.Notes == nil {
+		cov["notes"] = []string{}
 	}
 	seed := 0
 	fmt.Sscanf(os.Getenv("VERIF_SEED"), "%d", &seed)
